@@ -2779,7 +2779,7 @@ func (dsc *dataStoreCommand) intersectWithLimitWorker(limit int, keyNames ...str
 	}
 
 	d = newRedisDict()
-	if len(sets) < 2 {
+	if len(sets) == 0 {
 		return
 	}
 
